@@ -216,6 +216,13 @@ int EvalExpression::run(AsmContext *asm_context, Var &answer, bool is_paren)
     if (execute_stack(var_stack, oper_stack) != 0) { return  -1; }
   }
 
+  // An operator is left over without a right operand, such as: 1 +
+  if (oper_stack.is_empty() == false)
+  {
+    print_error(asm_context, "Missing operand in expression");
+    return -1;
+  }
+
   answer = var_stack.pop();
 
   return 0;
